@@ -1,0 +1,30 @@
+//go:build verif
+// +build verif
+
+package isaacdatabase
+
+import "context"
+
+// VerifMergeOne runs one pass of the merge ticker (Center.start): the oldest temp database
+// goes to the permanent database while at least two remain.
+func (db *Center) VerifMergeOne() (bool, error) {
+	return db.mergePermanent(context.Background())
+}
+
+// VerifCleanRemoved runs the other half of the merge ticker: merged temp databases beyond the
+// last `limit` ones are removed from the storage.
+func (db *Center) VerifCleanRemoved(limit int) error {
+	return db.cleanRemoved(limit)
+}
+
+// VerifTempHeights returns the heights of the active temp databases, newest first.
+func (db *Center) VerifTempHeights() []int64 {
+	temps := db.activeTemps()
+	hs := make([]int64, len(temps))
+
+	for i := range temps {
+		hs[i] = temps[i].Height().Int64()
+	}
+
+	return hs
+}
